@@ -927,7 +927,8 @@ impl<'s, X: Item> VecExec<'s, $K, X> {
                         return false;
                     }
                 };
-                if let Some(it) = guard_nopanic("into_iter", 0, 0, move || <$K as Kind<X>>::v_into_iter(v)) {
+                let via_trait = op.a & 1 == 1;
+                if let Some(it) = guard_nopanic("into_iter", 0, 0, move || if via_trait { <$K as Kind<X>>::v_into_iter_trait(v) } else { <$K as Kind<X>>::v_into_iter(v) }) {
                     self.form = Form::It(it);
                     self.dq = self.model.drain(..).collect();
                     self.front = 0;
